@@ -662,6 +662,42 @@ func (x *Exec) escapeHavoc(st *State, args []Val, calleeTs []target, direct bool
 		if a.K != VClosure || a.Fn == nil {
 			continue
 		}
+		con := x.v.cf.Funcs[calleeName(a.Fn)]
+		skipArrays := con == nil || direct // (a closure that is called directly is the callee: its own modifies clause has just been applied)
+		var cts []target
+		captured := map[string]bool{}
+		whole := map[string]bool{}
+		if !skipArrays {
+			for _, b := range a.Bind {
+				if b.K == VTerm {
+					captured[b.T] = true
+				}
+			}
+			for _, t := range calleeTs {
+				if t.whole {
+					whole[t.array] = true
+				}
+			}
+			// every other (non-ghost, non-cell) array the closure's contract lets it modify -- as a whole or at
+			// some location -- and that the callee does not already havoc as a whole, is havocked as a whole
+			vars := map[string]Val{}
+			for k, fv := range a.Fn.FreeVars {
+				if k < len(a.Bind) {
+					vars[fv.Name()] = a.Bind[k]
+				}
+			}
+			for _, p := range a.Fn.Params {
+				vars[p.Name()] = x.symbolic(st, p.Type(), "escp")
+			}
+			cenv := &Env{x: x, st: st, old: nil, vars: vars, entry: st.entry}
+			// (evaluated in the state BEFORE the captured cells are havocked: `content(deref(v))` is the array v holds now)
+			var err error
+			cts, err = cenv.evalTargets(con.Modifies)
+			if err != nil {
+				st.tainted = "modifies clause of " + calleeName(a.Fn) + " cannot be evaluated where the closure is handed over: " + err.Error()
+				cts = nil
+			}
+		}
 		stored := storedFreeVars(a.Fn, map[*ssa.Function]bool{})
 		var ks []int
 		for k := range stored {
@@ -695,40 +731,6 @@ func (x *Exec) escapeHavoc(st *State, args []Val, calleeTs []target, direct bool
 			}
 			st.setH(name, es, store(st.H(name, es), ptr.T, nv.T))
 		}
-		con := x.v.cf.Funcs[calleeName(a.Fn)]
-		if con == nil || direct {
-			// (a closure that is called directly is the callee: its own modifies clause has just been applied)
-			continue
-		}
-		captured := map[string]bool{}
-		for _, b := range a.Bind {
-			if b.K == VTerm {
-				captured[b.T] = true
-			}
-		}
-		whole := map[string]bool{}
-		for _, t := range calleeTs {
-			if t.whole {
-				whole[t.array] = true
-			}
-		}
-		// every other (non-ghost, non-cell) array the closure's contract lets it modify -- as a whole or at
-		// some location -- and that the callee does not already havoc as a whole, is havocked as a whole
-		vars := map[string]Val{}
-		for k, fv := range a.Fn.FreeVars {
-			if k < len(a.Bind) {
-				vars[fv.Name()] = a.Bind[k]
-			}
-		}
-		for _, p := range a.Fn.Params {
-			vars[p.Name()] = x.symbolic(st, p.Type(), "escp")
-		}
-		cenv := &Env{x: x, st: st, old: nil, vars: vars, entry: st.entry}
-		cts, err := cenv.evalTargets(con.Modifies)
-		if err != nil {
-			st.tainted = "modifies clause of " + calleeName(a.Fn) + " cannot be evaluated where the closure is handed over: " + err.Error()
-			continue
-		}
 		done := map[string]bool{}
 		for _, t := range cts {
 			if t.ghost || strings.HasPrefix(t.array, "cell.") || whole[t.array] || done[t.array] {
@@ -736,6 +738,12 @@ func (x *Exec) escapeHavoc(st *State, args []Val, calleeTs []target, direct bool
 			}
 			if t.fresh || (t.ref != "" && captured[t.ref]) {
 				continue // objects the closure allocates itself; fields of a captured struct variable (havocked above)
+			}
+			if t.ref != "" && !t.whole {
+				// one location of the array (content(x), x.f): havoc just that location
+				nv := x.fresh("esc", t.esort)
+				st.setH(t.array, t.esort, store(st.H(t.array, t.esort), t.ref, nv))
+				continue
 			}
 			done[t.array] = true
 			st.havocH(t.array, t.esort)
